@@ -341,6 +341,13 @@ def c03_catalogue(quick):
           U(3, path='/sitemap.xml', kind='sitemap', links=[4]), U(4)]
     out.append(scenario('crash-sitemaps-notfound-start', nf, dict(sitemaps=1), N=1))
     out.append(scenario('crash-sitemaps-failing-start-T1', sm['failing'], dict(sitemaps=1, tries=1), N=1))
+    # the process dies of a fatal local error (the table reports "disk full" to the caller of one of its operations)
+    # instead of being killed: the application unwinds - every `finally` on the way runs - and exits; the same
+    # obligations hold for the run that follows
+    for name, site, n in (('crash-fatal-small-N1', small, 1), ('crash-fatal-small-N2', small, 2)):
+        f = scenario(name, site, N=n)
+        f['fatal'] = 1
+        out.append(f)
     if not quick:
         out.append(scenario('crash-sitemaps-basic', sm['basic'], dict(sitemaps=1), N=2))
         out.append(scenario('crash-sitemaps-failing-start', sm['failing'], dict(sitemaps=1, tries=2), N=1, benign=1))
